@@ -882,6 +882,75 @@ def _guarded_str(cfg: CFG, use: ast.AST, var: str) -> bool:
     return True
 
 
+# ======================================================================================= R20.5d
+NON_STR_TOKEN_KINDS = {"NUMBER": "int/float", "BOOLEAN": "bool", "NULL": "None", "INDENT": "int", "EOF": "None", "FENCE_OPEN": "dict"}
+
+
+def check_joined_token_values(run: Run, tt: list[str]) -> None:
+    run.rule("R20.5d", "token -> text tables join only strings: in every function that appends per-token text to a list that is later passed to str.join, a raw `<token>.value` is appended only on branches that cannot be taken by a token kind whose value is not a str (NUMBER, BOOLEAN, NULL, INDENT, EOF, FENCE_OPEN); otherwise `''.join` raises TypeError - outside every tool's try blocks", 3)
+    from .c02 import Chain
+
+    p = run.project
+    n_tables = 0
+    for m in p.modules.values():
+        for fi in m.functions.values():
+            joins = {_stmt_text(n.args[0]) for n in walk_no_nested(fi.node) if isinstance(n, ast.Call) and isinstance(n.func, ast.Attribute) and n.func.attr == "join" and isinstance(n.func.value, ast.Constant) and n.args and isinstance(n.args[0], ast.Name)}
+            if not joins:
+                continue
+            for loop in [n for n in walk_no_nested(fi.node) if isinstance(n, ast.For) and isinstance(n.target, ast.Name)]:
+                tok = loop.target.id
+                # the loop dispatches on <tok>.type (directly or through a local alias)
+                typevars = {f"{tok}.type"}
+                for n in ast.walk(loop):
+                    if isinstance(n, ast.Assign) and len(n.targets) == 1 and isinstance(n.targets[0], ast.Name) and _stmt_text(n.value) == f"{tok}.type":
+                        typevars.add(n.targets[0].id)
+                if not any(isinstance(c, ast.Compare) and _stmt_text(c.left) in typevars for c in ast.walk(loop)):
+                    continue
+                raw_appends = [c for c in ast.walk(loop) if isinstance(c, ast.Call) and isinstance(c.func, ast.Attribute) and c.func.attr == "append" and isinstance(c.func.value, ast.Name) and c.args and _stmt_text(c.args[0]) == f"{tok}.value"]
+                sinks = {c.func.value.id for c in raw_appends}  # type: ignore[attr-defined]
+                # the sink (or a string built from it) must reach a join in this function
+                if not raw_appends:
+                    run.instance("R20.5d", m.loc(loop), f"{fi.qualname}: per-token table, no raw `{tok}.value` appended", nontrivial=False)
+                    n_tables += 1
+                    continue
+                n_tables += 1
+                local_sets = {}
+                ch = Chain(p, m, typevars, sinks, local_sets)
+                # evaluate with a sink that only counts RAW appends: rewrite by checking which branch a kind takes
+                for T, pyt in NON_STR_TOKEN_KINDS.items():
+                    if T not in tt:
+                        continue
+                    hit = _raw_append_reached(ch, list(loop.body), T, tok)
+                    run.instance("R20.5d", m.loc(loop), f"{fi.qualname}: a {T} token " + (f"reaches `append({tok}.value)` ({pyt})" if hit else "never reaches a raw .value append"), ok=not hit)
+                    if hit:
+                        run.violation("R20.5d", m, fi.qualname, f"append({tok}.value) reachable for {T}", f"in {fi.qualname} a {T} token reaches `.append({tok}.value)`; its value is {pyt}, not str, so the later ''.join(...) raises TypeError. The reconstruction runs outside the tools' try blocks: octave_eject / octave_compile_grammar raise instead of returning an error envelope")
+    if n_tables < 3:
+        raise AnalysisError(f"only {n_tables} per-token text tables found")
+
+
+def _raw_append_reached(ch, stmts: list[ast.stmt], T: str, tok: str) -> bool:
+    """can a token of kind T reach a statement `X.append(<tok>.value)` in this block? (three-valued branch evaluation)"""
+    for st in stmts:
+        if isinstance(st, ast.If):
+            r = ch.test(st.test, T)
+            if r is not False and _raw_append_reached(ch, list(st.body), T, tok):
+                return True
+            if r is not True and _raw_append_reached(ch, list(st.orelse), T, tok):
+                return True
+            # a definitely-taken branch that ends the iteration stops the walk
+            if r is True and any(isinstance(x, (ast.Continue, ast.Break, ast.Return)) for x in st.body):
+                return False
+            if r is True and st.orelse == [] and False:
+                return False
+            continue
+        if isinstance(st, (ast.Continue, ast.Break, ast.Return)):
+            return False
+        for c in ast.walk(st):
+            if isinstance(c, ast.Call) and isinstance(c.func, ast.Attribute) and c.func.attr == "append" and c.args and _stmt_text(c.args[0]) == f"{tok}.value":
+                return True
+    return False
+
+
 # ======================================================================================= complexity
 def check_complexity(run: Run) -> None:
     run.rule("R20.6", "inside tokenize's main loop (one cycle per token) no statement does work proportional to the whole input or to everything produced so far: no loop over the growing `tokens`/`repairs` lists, no open-ended slice `content[k:]` / whole-input method call, except on paths that end in a raise", 1)
@@ -1039,6 +1108,7 @@ def check(run: Run) -> None:
     check_recursion(run, res)
     check_escape(run, res)
     check_meta_types(run, res)
+    check_joined_token_values(run, tt)
     check_complexity(run)
     check_bounds(run)
     run.assume("IndexError/KeyError/AttributeError/TypeError of ordinary subscripts and attribute access are modelled only where a rule names them (R20.5c META values, R20.8 scanner indexes); JSON-serialisability of envelope values and measured running time are not decided")
